@@ -552,6 +552,9 @@ class Arr:
         if name == 'truediv' and rev and isinstance(o, (int, float)) and o == 1 and 'mx' in self.tags and len(self.tags['mx']) == 1 and self.tags['mx'][0][0] in ('S', 'Sinv'):
             f_ = self.tags['mx'][0]
             tags['mx'] = ((('Sinv' if f_[0] == 'S' else 'S'), f_[1], '', f_[3]),)          # 1 / s
+        if name in ('lt', 'gt', 'le', 'ge') and (self.dt == 'complex' or (isinstance(o, Arr) and o.dt == 'complex') or isinstance(o, complex)):
+            CTX.event('complex-order', array=self, other=o, detail=f'an ordering comparison ({name}) of complex numbers: NumPy orders them by real part first (lexicographically), it does not '
+                      f'compare moduli')
         if name in ('lt', 'gt', 'le', 'ge', 'eq', 'ne'):
             dt = 'bool'
         r = Arr(shape, legs, dt, None, tags, name)
